@@ -52,7 +52,7 @@ class PyBoard:
             return "!2 Err: Invalid parameter"
         return "!8 Err: Unknown command"
 
-class BoardPort:
+class BoardPort(S.PortExtras):
     def __init__(self, board, slow=0):
         self.board, self.queue, self.log, self.writes = board, [], [], []
         self.slow = slow                      # reads that time out before each reply arrives (a busy board, a slow USB hub)
